@@ -101,10 +101,29 @@ func mkReqC14(host string) *bfe_basic.Request {
 }
 
 func VerifC14_hostTable() {
+	hostTableC14(vrt.Choose("shape", 4), pairC14, false)
+}
+
+// names that carry a ":port". The request side ignores the port ("port ... ignored", C10), so the name the
+// configuration side compares must not make two entries of different products meet under one lookup key.
+var portPairsC14 = [][2]string{{"a.c", "a.c:8"}, {"a.c:8", "a.c:9"}, {"A.c:8", "a.c"}, {"*.c", "*.c:8"}}
+
+func portPairC14() (string, string) {
+	p := portPairsC14[vrt.Choose("port-name-pair", len(portPairsC14))]
+	return p[0], p[1]
+}
+
+// VerifC14_hostTablePort: shapes 0 (two products, trie built in every order) and 3 (one product, loader loops
+// in every order) of VerifC14_hostTable with pairs of configured names of which at least one carries a
+// ":port"; the request host is "<l0>.<l1>" with optional trailing dot and optional ":8".
+func VerifC14_hostTablePort() {
+	hostTableC14([]int{0, 3}[vrt.Choose("shape", 2)], portPairC14, true)
+}
+
+func hostTableC14(shape int, pairC14 func() (string, string), reqPort bool) {
 	ver := "v"
 	conf := &host_rule_conf.HostTableConf{Version: &ver}
 	x, y := "a.c", "a.c"
-	shape := vrt.Choose("shape", 4)
 	phase := 1 // 0: map order is nondeterministic while loading; 1: while building the lookup trie
 	switch shape {
 	case 0:
@@ -173,6 +192,9 @@ func VerifC14_hostTable() {
 	host := l0 + "." + l1
 	if vrt.Choose("trailing-dot", 2) == 1 {
 		host += "."
+	}
+	if reqPort && vrt.Choose("request-port", 2) == 1 {
+		host += ":8"
 	}
 	r1, r2 := mkReqC14(host), mkReqC14(host)
 	err1 := t1.LookupHostTagAndProduct(r1)
